@@ -56,6 +56,7 @@ func main() {
 	write("ConfigLocks.lean", genConfigLocks())
 	write("FmtCmd.lean", genFmtCmd())
 	write("Resume.lean", genResume())
+	write("ChangeConfig.lean", genChangeConfig())
 	write("HostMatcherWrites.lean", genHostMatcherWrites())
 	write("MapRanges.lean", genMapRanges())
 	write("ReplacerTree.lean", genReplacerTree())
@@ -3268,4 +3269,65 @@ func genAdapterSources() string {
 	sb.WriteString("def adapterOutsideInputs : List (String × String) := [\n  " + strings.Join(sources, ",\n  ") + "]\n")
 	sb.WriteString(footer)
 	return sb.String()
+}
+
+// ---------------------------------------------------------------- C14: every accepted config change runs (and so autosaves)
+
+// genChangeConfig reads off caddy.go changeConfig: the results returned by the return statements
+// that sit between the computation of newCfg (json.Marshal of the whole document) and the call of
+// unsyncedDecodeAndRun, and how many `return nil` the function has above that call.
+func genChangeConfig() string {
+	_, f := parseFile("caddy.go")
+	fd := findFunc(f, "", "changeConfig")
+	var between []string
+	nilBefore, runCalls := 0, 0
+	if fd != nil && fd.Body != nil {
+		runPos, marshalPos := token.NoPos, token.NoPos
+		ast.Inspect(fd.Body, func(n ast.Node) bool {
+			if ce, ok := n.(*ast.CallExpr); ok {
+				switch exprText(ce.Fun) {
+				case "unsyncedDecodeAndRun":
+					runCalls++
+					if runPos == token.NoPos {
+						runPos = ce.Pos()
+					}
+				case "json.Marshal":
+					if marshalPos == token.NoPos {
+						marshalPos = ce.Pos()
+					}
+				}
+			}
+			return true
+		})
+		ast.Inspect(fd.Body, func(n ast.Node) bool {
+			if _, ok := n.(*ast.FuncLit); ok {
+				return false // closures (restoreOldCfg) return to themselves
+			}
+			rs, ok := n.(*ast.ReturnStmt)
+			if !ok || runPos == token.NoPos || rs.Pos() > runPos {
+				return true
+			}
+			txt := ""
+			if len(rs.Results) == 1 {
+				txt = exprText(rs.Results[0])
+				if ce, ok := rs.Results[0].(*ast.CompositeLit); ok {
+					txt = exprText(ce.Type) + "{…}"
+				}
+			}
+			if txt == "nil" {
+				nilBefore++
+			}
+			if marshalPos != token.NoPos && rs.Pos() > marshalPos {
+				between = append(between, txt)
+			}
+			return true
+		})
+	}
+	return header +
+		"/-- what `changeConfig` (caddy.go) returns between computing the new whole document and running it -/\n" +
+		"def changeConfigReturnsBeforeRun : List String := " + leanStrList(between) + "\n\n" +
+		"/-- `return nil` statements of `changeConfig` above its `unsyncedDecodeAndRun` call -/\n" +
+		"def changeConfigNilReturnsBeforeRun : Nat := " + strconv.Itoa(nilBefore) + "\n\n" +
+		"/-- calls of `unsyncedDecodeAndRun` in `changeConfig` -/\n" +
+		"def changeConfigRunCalls : Nat := " + strconv.Itoa(runCalls) + "\n" + footer
 }
